@@ -2,7 +2,9 @@ package world
 
 import (
 	"fmt"
+	"strings"
 
+	"github.com/xuperchain/xupercore/bcs/ledger/xledger/state/utxo/txhash"
 	pb "github.com/xuperchain/xupercore/bcs/ledger/xledger/xldgpb"
 	"github.com/xuperchain/xupercore/verifshim/vhook"
 )
@@ -51,9 +53,26 @@ func Universe3WayW(withBad bool, window int) *Universe {
 	b.Block("b3", "P")
 	b.At("g")
 	b.Block("c1", "M")
+	// unconfirmed candidates: a parent with two children spending different
+	// outputs of it (pP conflicts with tS on A's genesis output), and a spender
+	// of the fee output that tA2 pays to the proposer of a2
+	b.At("g")
+	pP := b.Raw("pP", BuildTx(TxSpec{Initiator: "A", Ins: []In{{Tx: root, Offset: 0}}, Outs: []Out{{To: "A", Amount: "600"}, {To: "A", Amount: "400"}}, Nonce: "pP"}), false)
+	b.Raw("pC1", BuildTx(TxSpec{Initiator: "A", Ins: []In{{Tx: pP, Offset: 0}}, Outs: []Out{{To: "C", Amount: "600"}}, Nonce: "pC1"}), false)
+	b.Raw("pC2", BuildTx(TxSpec{Initiator: "A", Ins: []In{{Tx: pP, Offset: 1}}, Outs: []Out{{To: "D", Amount: "399"}, {To: "$", Amount: "1"}}, Nonce: "pC2"}), false)
+	tA2 := b.U.Tx("tA2")
+	b.Raw("sFee", BuildTx(TxSpec{Initiator: "M", Ins: []In{{Tx: tA2, Offset: 2, Owner: "M"}}, Outs: []Out{{To: "B", Amount: "5"}}, Nonce: "sFee"}), false)
 	if withBad {
 		b.BadBlock("cc2", "a1", "M", nil, true)
 		b.BadBlock("dup3", "a2", "M", []*pb.Transaction{b.U.Tx("tS")}, false)
+		// a block that fails transaction verification AFTER the pool was reconciled
+		// with it: tA2 conflicts with a pending tD2, tBadSig carries a corrupted signature
+		tBad := b.U.Tx("tB2")
+		tBad.InitiatorSigns[0].Sign[len(tBad.InitiatorSigns[0].Sign)-1] ^= 1
+		tBad.AuthRequireSigns = tBad.InitiatorSigns
+		tBad.Txid, _ = txhash.MakeTransactionID(tBad)
+		b.Raw("tBadSig", tBad, true)
+		b.BadBlock("bv2", "a1", "M", []*pb.Transaction{b.U.Tx("tA2"), tBad}, false)
 		b.BadBlock("o1", "g", "P", nil, false)
 		b.BadBlock("o2", "o1", "P", nil, false)
 	}
@@ -240,5 +259,30 @@ func UniverseC13() *Universe {
 	tr("fC", "C", []In{{Tx: root, Offset: 2}}, []Out{{To: "A", Amount: "998"}, {To: "$", Amount: "2"}})
 	tr("tD", "D", []In{{Tx: root, Offset: 3}}, []Out{{To: "B", Amount: "1000"}})
 	_ = kvA
+	return b.Done()
+}
+
+// UniverseC13Big: 1 MB blocks and a dependency chain of three 300 KB
+// transfers followed by a tiny one, so that the pool does not fit one block:
+// b1 (B pays C) <- b2 (C pays D) <- b3 (D pays A) <- b4 (A pays B, tiny); tD2 is
+// an independent small transfer by D's other identity (A's genesis output).
+func UniverseC13Big() *Universe {
+	cfg := DefaultConfig()
+	cfg.Quotas = map[string]string{"A": "1000", "B": "1000", "C": "1000", "D": "1000"}
+	cfg.MaxBlockSizeMB = 1
+	b := NewUniverse("U-c13big", cfg, RegisterVKV)
+	root := b.Root()
+	b.At("g")
+	b.Block("k1", "M")
+	b.At("k1")
+	big := strings.Repeat("x", 300*1024)
+	tr := func(name, from string, ins []In, outs []Out, desc string) *pb.Transaction {
+		return b.Raw(name, BuildTx(TxSpec{Initiator: from, Ins: ins, Outs: outs, Nonce: name, Desc: desc}), false)
+	}
+	b1 := tr("b1", "B", []In{{Tx: root, Offset: 1}}, []Out{{To: "C", Amount: "1000"}}, big)
+	b2 := tr("b2", "C", []In{{Tx: b1, Offset: 0}}, []Out{{To: "D", Amount: "1000"}}, big)
+	b3 := tr("b3", "D", []In{{Tx: b2, Offset: 0}}, []Out{{To: "A", Amount: "1000"}}, big)
+	tr("b4", "A", []In{{Tx: b3, Offset: 0}}, []Out{{To: "B", Amount: "1000"}}, "")
+	tr("tA", "A", []In{{Tx: root, Offset: 0}}, []Out{{To: "D", Amount: "999"}, {To: "$", Amount: "1"}}, "")
 	return b.Done()
 }
